@@ -12,5 +12,7 @@ Lists2T == Lists2 \cup {<<P(RD, {"txt"}), P(RD, {"txt"}), P(RD, {})>>, <<P(DS, {
 TreesCT == {Tree(F, Em) : F \in UpTo(DFiles \cup {dszt}, 4) \ {{}}, Em \in {{}}}
 Adds2T == Adds2 \cup {<<P(RD, {}), P(DS, {"txt"})>>}
 Sc_t4 == <<Fam2a(TreesCT, Lists2T), Fam2b(TreesCT, Lists2T, Adds2T)>>
+TreesDeep == {Tree(F, {}) : F \in UpTo({dxt, dsxt, dszt, dsuxt, dsdx, dyg}, 3) \ {{}}}
+Sc_t6 == <<Fam2b(TreesDeep, Lists2T, Adds2T)>>
 Sc_t5 == <<Fam3a(3), Fam3b(3), Fam4a, Fam4b>>
 =============================================================================
